@@ -47,7 +47,9 @@ def measure_cells():
 STRUCT_CELLS = ["pk_single", "pk_composite", "table_qualified", "sql_model", "rel_many_to_one", "rel_one_to_many", "rel_one_to_one",
                 "dim_time_month", "dim_numeric", "dim_boolean", "segment",
                 # pairs: relationship type x key of the related model (the join key a relationship relies on when it names none)
-                "rel_many_to_one+pk_custom", "rel_many_to_one+pk_composite", "rel_many_to_one+pk_explicit", "rel_one_to_many+pk_custom", "rel_one_to_one+pk_custom"]
+                "rel_many_to_one+pk_custom", "rel_many_to_one+pk_composite", "rel_many_to_one+pk_explicit", "rel_one_to_many+pk_custom", "rel_one_to_one+pk_custom",
+                # pair: two time dimensions with different granularities
+                "dim_time_two"]
 
 
 def build_struct_graph(kind):
@@ -55,6 +57,8 @@ def build_struct_graph(kind):
     from sidemantic.core.semantic_graph import SemanticGraph
     g = SemanticGraph()
     dims = [Dimension(name="status", type="categorical"), Dimension(name="created", type="time", sql="created_at", granularity="month" if kind == "dim_time_month" else "day")]
+    if kind == "dim_time_two":
+        dims.append(Dimension(name="shipped", type="time", sql="shipped_at", granularity="month"))
     if kind == "dim_numeric":
         dims.append(Dimension(name="qty_d", type="numeric", sql="qty"))
     if kind == "dim_boolean":
@@ -118,6 +122,9 @@ def struct_attr(graph, kind):
     if kind == "dim_time_month":
         d = m.get_dimension("created")
         return None if d is None else (d.type, d.granularity)
+    if kind == "dim_time_two":
+        ds = [m.get_dimension("created"), m.get_dimension("shipped")]
+        return tuple(None if d is None else (d.type, d.granularity) for d in ds)
     if kind == "dim_numeric":
         d = m.get_dimension("qty_d")
         return None if d is None else d.type
@@ -167,6 +174,8 @@ def evaluate_struct(fmt, kind):
         outcome = "lost"            # the format has no syntax for it / it falls back to the default: allowed, reported
     elif kind.startswith("rel_") and rel_only_lost(g0, g1):
         outcome = "lost"
+    elif kind == "dim_time_two" and all(x == y or y in (None, ("time", "day"), ("time", None), ("categorical", None)) for x, y in zip(a0, a1)):
+        outcome = "lost"            # component-wise: each dimension is kept or falls back to a default
     else:
         outcome = "changed"
     fixed = True
